@@ -548,6 +548,8 @@ pub enum ASlot {
 pub struct AExec {
     pub root: AsyncVfsPath,
     pub slots: BTreeMap<u8, ASlot>,
+    /// roots of further filesystems (path index 1, 2, ...) for cross-filesystem transfers
+    pub others: Vec<AsyncVfsPath>,
 }
 
 fn aresolve(root: &AsyncVfsPath, s: &str) -> VfsResult<AsyncVfsPath> {
@@ -602,8 +604,9 @@ impl AExec {
 
     async fn exec_inner(&mut self, op: &Op) -> Result<Out, ErrInfo> {
         let v = |e: vfs::VfsError| err_info(&e);
-        let root = self.root.clone();
-        let path = |p: &P| aresolve(&root, &p.s).map_err(|e| err_info(&e));
+        let mut roots = vec![self.root.clone()];
+        roots.extend(self.others.iter().cloned());
+        let path = |p: &P| aresolve(&roots[(p.fs as usize).min(roots.len() - 1)], &p.s).map_err(|e| err_info(&e));
         match op {
             Op::Exists(p) => Ok(Out::Bool(path(p)?.exists().await.map_err(v)?)),
             Op::IsFile(p) => Ok(Out::Bool(path(p)?.is_file().await.map_err(v)?)),
